@@ -615,11 +615,10 @@ void cmb_dataset_ACF(const struct cmb_dataset *dsp,
     const double var = m2 / ((double)(dsp->count - 1u));
 
     acf[0] = 1.0;
-    const double min_acf_variance = 1e-9;
-    if (var < min_acf_variance) {
-        /* Would be numerically unstable to divide by that */
+    if (!(var > 0.0)) {
+        /* Constant data. Any absolute threshold would depend on the unit */
         cmb_logger_warning(stderr,
-                "Dataset nearly constant (variance %g), ACFs rounded to zero",
+                "Dataset constant (variance %g), ACFs set to zero",
                  var);
         for (unsigned ui = 1; ui <= n; ui++) {
             acf[ui] = 0.0;
